@@ -442,7 +442,12 @@ func c06Files(c *Ctx) {
 				// same bytes every time, so every pass yields the records of the file.
 				for _, path := range []string{plain, gz} {
 					it := cd.file(path)
+					fds0 := countFDs()
 					collect(it, 1+r.IntN(3)) // an abandoned pass
+					if fds := countFDs(); fds0 >= 0 && fds > fds0 && len(ref) > 3 {
+						k.Failf("file-left-open", "%s.File(%s): %d more file descriptor(s) open after an abandoned pass than before it; the next passes then depend on how many files the process may hold", f, filepath.Base(path), fds-fds0)
+						return
+					}
 					var outer []item
 					for key, err := range it {
 						outer = append(outer, item{Key: key, Err: err != nil})
